@@ -332,6 +332,17 @@ class Interp(_Base):
         R = lambda v: [(st, v)]   # noqa
         if name == "noop":
             return R(NONE)
+        if name in ("copy", "deepcopy", "module:copy.copy", "module:copy.deepcopy"):
+            v = args[0] if args else NONE
+            if isinstance(v, RefV):
+                src = st.heap[v.oid]
+                o = st.new_obj(src.cls, fresh=True)
+                o.attrs = dict(src.attrs)
+                o.cal = src.cal
+                o.site = self.construct("copy", node)
+                o.copied_from = src.sym
+                return R(RefV(o.oid))
+            return R(v)
         if name == "cast":
             return R(args[1] if len(args) > 1 else TopV("cast"))
         if name == "super":
@@ -683,6 +694,18 @@ class Interp(_Base):
         for (cy, cm, cd) in st.checked:
             if cm == m.sym and cd == d.sym and (cy == y.sym or _is_leap_const(cy)):
                 return "CHECKED"
+        # dominated day: year and month copied from one valid date O, and the day is
+        # known to be <= O.day on this path
+        ys, ms = y.sym, m.sym
+        if isinstance(ys, tuple) and isinstance(ms, tuple) and len(ys) == 3 and len(ms) == 3 \
+                and ys[0] == ms[0] == "attr" and ys[1] == ms[1] and ys[2] == "year" \
+                and ms[2] == "month":
+            src = ys[1]
+            good = any(o.sym == src and o.cal in ("REAL", "CHECKED") for o in st.heap.values())
+            if good:
+                for sa, opn, sb, asym, bsym in st.rels:
+                    if asym == d.sym and bsym == ("attr", src, "day") and opn in ("Lt", "LtE"):
+                        return "CHECKED"
         srcs = set()
         ok = True
         for fld, v in (("year", y), ("month", m), ("day", d)):
